@@ -26,7 +26,7 @@ func init() {
 			return 7200
 		},
 		Run:      runC02,
-		Required: []string{"epochs", "epochs.parallel", "epochs.multi_species", "species.founded", "species.survived", "species.extinct", "scenarios.large_genomes"},
+		Required: []string{"epochs", "epochs.parallel", "epochs.multi_species", "species.founded", "species.survived", "species.extinct", "scenarios.large_genomes", "scenarios.second_run_served_by_the_same_executor_object"},
 	})
 }
 
@@ -57,12 +57,17 @@ func runC02(c *Ctx, idx int) {
 	runScenario(c, sc, mon)
 	if idx%8 == 6 && !c.Violated() && sc.Ctor != ctorRandom {
 		// a second, short run on a changed by-value copy of the options object just used (another population size), with the
-		// context that copy hands out itself
+		// context that copy hands out itself; every other time the executor object of the first run serves the second one too
 		second := *sc.Opts
 		second.PopSize = sc.Opts.PopSize + 3 + c.G.Intn(6)
 		sc2 := *sc
 		sc2.Opts, sc2.Epochs, sc2.RestoreAt, sc2.SwitchOptsAt, sc2.ownContext = &second, 3, 0, 0, true
 		c.Count("scenarios.second_run_on_changed_copy_of_options", 1)
+		if idx%16 == 6 {
+			sc2.executor = nil // an executor of its own
+		} else {
+			c.Count("scenarios.second_run_served_by_the_same_executor_object", 1)
+		}
 		runScenario(c, &sc2, &popMonitor{seenSpecies: map[int]*genetics.Species{}})
 	}
 }
